@@ -193,6 +193,7 @@ type multiStreamListener struct {
 	ln          StreamListener
 	count       uint32
 	acceptCh    chan acceptResponse
+	doneCh      chan struct{}
 	onCloseFunc OnCloseFunc
 }
 
@@ -219,23 +220,26 @@ func (m *multiStreamListener) Acquire() (StreamListener, error) {
 		}
 		m.ln = &TCPListener{ln}
 		m.acceptCh = make(chan acceptResponse)
-		go func() {
+		m.doneCh = make(chan struct{})
+		go func(ln StreamListener, acceptCh chan<- acceptResponse, doneCh <-chan struct{}) {
+			defer close(acceptCh)
 			for {
-				m.mu.Lock()
-				ln := m.ln
-				m.mu.Unlock()
-
-				if ln == nil {
-					return
-				}
 				conn, err := ln.AcceptStream()
 				if errors.Is(err, net.ErrClosed) {
-					close(m.acceptCh)
 					return
 				}
-				m.acceptCh <- acceptResponse{conn, err}
+				select {
+				case acceptCh <- acceptResponse{conn, err}:
+				case <-doneCh:
+					// The last virtual listener closed while we were holding an accepted
+					// connection: nobody can take it any more, so don't leave it hanging.
+					if conn != nil {
+						conn.Close()
+					}
+					return
+				}
 			}
-		}()
+		}(m.ln, m.acceptCh, m.doneCh)
 	}
 
 	m.count++
@@ -248,6 +252,7 @@ func (m *multiStreamListener) Acquire() (StreamListener, error) {
 			defer m.mu.Unlock()
 			m.count--
 			if m.count == 0 {
+				close(m.doneCh)
 				m.ln.Close()
 				m.ln = nil
 				if m.onCloseFunc != nil {
